@@ -110,7 +110,7 @@ def cli(argv=sys.argv, mode='output'):
     args = parser.parse_args(argv[1:])
 
     # If necessary, init the random generator
-    if hasattr(args, 'seed') and args.seed:
+    if getattr(args, 'seed', None) is not None:
         random.seed(args.seed)
 
     msg = """Waiting for a DIMACS formula on <stdin>.
